@@ -467,7 +467,7 @@ PRE_THOROUGH = PRE + [[5], [5, 2]]
 
 def run_c12(tier, seed, verdict, cov):
     d = fresh_dir('c12-%d' % os.getpid())
-    npos = 120 if tier == 'quick' else 1500
+    npos = 200 if tier == 'quick' else 1500
     gparts = max(1, min(NCPU - 2, 12))
 
     def gen(i):
